@@ -94,6 +94,8 @@ def units(tier):
     wrap("C01.add_other_logk.named_expression_and_form", M.unit_add_other_logk_lookup)
     from props import c01_ktemp as KT
     wrap("C01.k_temp.every_logK_at_solution_T_and_P", KT.unit_k_temp)
+    from props import c01_buildmodel as BM
+    wrap("C01.build_model.species_wired_by_kind", BM.unit_species_wiring)
     from props import c15_readers as RD
     wrap("C01.read_analytical_expression_only.six_coefficients_in_order", RD.unit_analytic)
     def _dh(twin=False):
